@@ -6,6 +6,8 @@ HERE = os.path.dirname(os.path.dirname(os.path.abspath(__file__)))
 TECH = "bounded symbolic execution of the real CUQIpy functions (z3 proxy scalars in numpy object arrays, DFS over solver-decided branches) + SMT discharge of every obligation over all symbolic values; counterexamples replayed on the float code"
 
 CHECKS = {
+ 'C02': ("one transition of MH, CWMH, pCN/PCN, MALA and ULA in both interfaces from an ARBITRARY symbolic pre-state (point, cached log-density/gradient, scale), with symbolic proposal noise and uniform draw and an UNINTERPRETED target/gradient: on every feasible path the accept decision lies between {log u < log alpha} and {log u <= log alpha} for the Metropolis-Hastings ratio of the mechanism used (random walk, sequential component-wise, Langevin proposal, prior-reversible pCN incl. symbolic prior mean/variance), the post-state is (x', T(x'), grad T(x')) on accept and unchanged on reject, and nan/-inf/+inf proposals are rejected for every u (incl. u = 0)",
+         "reversibility/invariance follow from the decided accept rule by the textbook argument (not decided); dims 1-2 (3 thorough); cached values of the pre-state are assumed to belong to the current point"),
  'C03': ("for every listed family/model/geometry configuration and ALL evaluation points, parameter values and data: gradient() equals the symbolic derivative of the same object's logd (exact identity query), or the call raises, or NaN outside the support",
          "real-arithmetic reading of float64; C kernels (LAPACK/scipy.stats) replaced by validated contract stubs; dims <= 4; z3 5.1 is trusted"),
  'C04': ("for every listed family, parameterisation (scalar/vector/diag/dense/sparse-switch), dimension <= 3 and ALL parameter values and evaluation points: logpdf/logd/pdf/cdf equal the documented normalised density (SMT identity / 1e-9 tolerance over a box for concrete float matrices)",
